@@ -160,6 +160,16 @@ func (c14) Gen(r *sim.Rand, tier string, run uint64) *sim.Scenario {
 	}
 	if kind == 2 && r.Chance(1, 6) {
 		sc.Cfg["forkbus"] = 1
+	} else if kind != 0 && r.Chance(1, 10) {
+		sc.Cfg["faultend"] = int64(r.Range(1, 2))
+		// straight-line code, so that the cut-off instruction is reached
+		simple := []byte{0xEA, 0xE8, 0xC8, 0x1A, 0x3A, 0x18, 0x38, 0xAA, 0xA8}
+		var ops []sim.Op
+		for i := 0; i < r.Range(1, 8); i++ {
+			ops = append(ops, sim.Op{K: "i", B: []byte{simple[r.Intn(len(simple))]}})
+		}
+		ops = append(ops, sim.Op{K: "i", B: []byte{byte(sim.PickInt(r, 0xAD, 0x8D, 0xAF, 0x8F, 0xBD)), byte(r.Intn(256)), byte(r.Intn(0x70)), byte(r.Intn(0x70))}})
+		sc.Ops = ops
 	}
 	if kind == 1 && r.Chance(1, 6) {
 		pcv := sc.Cfg["pc"]
@@ -250,7 +260,10 @@ func c14sys(sc *sim.Scenario, env *sim.Env) *sim.Violation {
 	}
 	st.ProbeIf(sc.C("nohole") != 0, "code_at_end_of_attached_window")
 	// world A: traced
-	smA, err := NewSysMachine(env, 0, mkHole())
+	// which of the two pooled Systems is the traced one alternates: over a worker's runs both
+	// get traced (a tracer that keeps something per process meets its second System)
+	ia := int(sc.Seed>>3) & 1
+	smA, err := NewSysMachine(env, ia, mkHole())
 	if err != nil {
 		return &sim.Violation{Oracle: "HARNESS_PANIC", Msg: err.Error()}
 	}
@@ -286,7 +299,7 @@ func c14sys(sc *sim.Scenario, env *sim.Env) *sim.Violation {
 	}
 	regsA := cpuA{&smA.S.CPU}.Regs()
 	// world B: untraced
-	smB, err := NewSysMachine(env, 1, mkHole())
+	smB, err := NewSysMachine(env, 1-ia, mkHole())
 	if err != nil {
 		return &sim.Violation{Oracle: "HARNESS_PANIC", Msg: err.Error()}
 	}
@@ -341,7 +354,7 @@ func c14sys(sc *sim.Scenario, env *sim.Env) *sim.Violation {
 
 	// pass C: reference pass on machine 1, recording what each instruction looks like
 	// from outside just before it executes (the property's own definition of RunUntil)
-	smC, err := NewSysMachine(env, 1, mkHole())
+	smC, err := NewSysMachine(env, 1-ia, mkHole())
 	if err != nil {
 		return &sim.Violation{Oracle: "HARNESS_PANIC", Msg: err.Error()}
 	}
@@ -548,6 +561,24 @@ func c14alt(sc *sim.Scenario, env *sim.Env) *sim.Violation {
 		m := NewSimMem(env, 0, uint64(sc.C("fillseed"))^0xa17)
 		m.NoLog = true
 		loadSimMem(m, sc)
+		if k := uint32(sc.C("faultend")); k != 0 {
+			// the memory ends k bytes before the end of the program's last instruction (a ROM
+			// slice cut short): fetching or rendering that instruction faults, in the traced and
+			// the untraced world alike (so the run is discarded); what matters is the state the
+			// tracer is left in for the runs that follow in the same process
+			end := uint32(sc.C("pc")) & 0xFFFFFF
+			for _, op := range sc.Ops {
+				end = end&0xFF0000 | (end+uint32(len(op.B)))&0xFFFF
+			}
+			lo := end - k
+			m.Fault = func(a uint32) bool {
+				if a >= lo && a < lo+64 {
+					st.Fault("device_fault")
+					return true
+				}
+				return false
+			}
+		}
 		return m
 	}
 	ss := sim.NewSink(env, int(sc.C("sink"))&3, int(sc.C("sinkk"))*4)
